@@ -393,7 +393,10 @@ theorem repGreedyGen_inv (W : Writes I) {child : Gen} (C : ChildOK Pos I child) 
       · exact .nil _ h
       · exact hfirst _ _
     · apply Step.Inv.force
-      exact greedyNode_inv C min bound _ 1 _ p _ hp (W.hist _ _ h)
+      apply Step.Inv.append
+      · exact greedyNode_inv C min bound _ 1 _ p _ hp (W.hist _ _ h)
+      · intro st2 h2
+        exact greedyNode_inv C min bound _ 1 _ p _ hp h2
   · split
     · exact .nil _ h
     · exact hfirst _ _
@@ -1086,7 +1089,10 @@ theorem repGreedyGen_nd {child : Gen} (C : ChildND L child) (ctx : Ctx) (id min 
       · exact .nil _
       · exact hfirst _ _
     · apply Step.NoDiv.force
-      exact greedyNode_nd C min bound _ 1 _ p _ hp
+      apply Step.NoDiv.append
+      · exact greedyNode_nd C min bound _ 1 _ p _ hp
+      · intro st2
+        exact greedyNode_nd C min bound _ 1 _ p _ hp
   · split
     · exact .nil _
     · exact hfirst _ _
